@@ -1,5 +1,6 @@
 mod common;
 mod props;
+mod units;
 
 use common::Tier;
 
